@@ -214,9 +214,17 @@ def outreg_cases(rng, n):
         def code(fm):
             lo, hi = S.fmt_bounds(fm[0], fm[1]); return rng.choice([lo, hi, hi - 1, lo + 1, rng.randint(lo, hi), rng.randint(lo, hi)])
         op = rng.choice(['+', '-', '*', '*', 'sum', 'max'])
-        if op in ('sum', 'max'): fym = fxm        # (a reduction of an array [cx, cy] held in one format)
+        more = []
+        if op in ('sum', 'max'):
+            if rng.random() < 0.5:
+                # a reduction whose raw result needs more than 53 bits and is rescaled by a negative power of two (fewer fraction bits in the register)
+                nw = rng.choice([52, 53, 56, 60, rng.randint(45, 60)]); fxm = [rng.random() < 0.6, nw, rng.choice([1, 2, 8, nw // 2, nw])]
+                nfo = max(0, fxm[2] - rng.choice([1, 1, 2, 3, rng.randint(1, 12)]))
+                more = [code(fxm) for _ in range(rng.choice([0, 1, 2]))]
+            fym = fxm        # (a reduction of an array [cx, cy, ...] held in one format)
         cases.append({'x': fxm, 'cx': code(fxm), 'y': fym, 'cy': code(fym), 'op': op, 'out': [fxm[0] or fym[0] or rng.random() < 0.7, nwo, nfo],   # (a signed result into an unsigned out is a documented error)
                       'r': rng.choice(RMODES), 'route': rng.choice(['out', 'op_out']), 'build': rng.choice(['scalar', 'scalar', 'indexed', 'array'])})
+        if more: cases[-1]['more'] = more
     return cases
 
 def run_outreg(cases, res):
@@ -233,7 +241,7 @@ def run_outreg(cases, res):
                 x = fx.Fxp([c['cx']], *c['x'], raw=True); y = fx.Fxp([c['cy']], *c['y'], raw=True)
             out = fx.Fxp(None, *c['out'], overflow='wrap', rounding=c['r'])
             if c['op'] in ('sum', 'max'):
-                xa = fx.Fxp([c['cx'], c['cy']], *c['x'], raw=True)
+                xa = fx.Fxp([c['cx'], c['cy']] + c.get('more', []), *c['x'], raw=True)
                 z = (fx.sum if c['op'] == 'sum' else fx.fxp_max)(xa, out=out)
             elif c['route'] == 'out':
                 z = {'+': fx.add, '-': fx.sub, '*': fx.mul}[c['op']](x, y, out=out)
@@ -245,6 +253,9 @@ def run_outreg(cases, res):
             res.fail(c, 'C03: arithmetic into a wide wrap register raised %s' % lib.exc_name(e), got=str(e)[:200]); continue
         xv = Fraction(c['cx'], 1) / (1 << c['x'][2]); yv = Fraction(c['cy'], 1) / (1 << c['y'][2])
         ex = xv + yv if c['op'] in ('+', 'sum') else (xv - yv if c['op'] == '-' else (max(xv, yv) if c['op'] == 'max' else xv * yv))
+        if c['op'] in ('sum', 'max'):
+            mv = [Fraction(m, 1) / (1 << c['x'][2]) for m in c.get('more', [])]
+            ex = sum(mv, ex) if c['op'] == 'sum' else max([ex] + mv)
         pend.append((c, got, lib.status3(z))); reqs.append([4] + e_fmt(*c['out']) + [RMODES.index(c['r']), 1] + e_list([ex], e_dy))
         # the arithmetic model (raw method into the imposed format: Python integers, exact rationals for a negative rescale)
         reqs.append([41, {'+': 0, '-': 1, '*': 2, 'sum': 0, 'max': 0}[c['op']]] + e_fmt(*c['x']) + e_list([c['cx']]) + e_fmt(*c['y']) + e_list([c['cy']]) + e_fmt(*c['out']) + [RMODES.index(c['r']), 1])
